@@ -158,14 +158,14 @@ func c07Strings(level int) [][]byte {
 	add(nil)
 
 	// limb products
-	for _, s := range alpha.Strings256(ref.N, level+1) {
+	for _, s := range alpha.Strings256(ref.N, 2*level+1) {
 		add(ref.Bytes32(s))
 	}
 
 	// window around n
 	w := int64(1 << 9)
 	if level >= 1 {
-		w = 1 << 12
+		w = 1 << 16
 	}
 
 	for d := -w; d <= w; d++ {
@@ -185,7 +185,7 @@ func c07Strings(level int) [][]byte {
 	add(ref.Bytes32(new(big.Int).Sub(ref.Two256(), big.NewInt(1))))
 	add(ref.Bytes32(ref.P))
 
-	for _, v := range alpha.Values(ref.N, 0) {
+	for _, v := range alpha.Values(ref.N, 2*level) {
 		add(ref.Bytes32(v.V))
 	}
 
